@@ -148,10 +148,14 @@ Inject(sd, base, k) ==
          \* (near miss: a name that differs from an existing column's only in letter case, where no column is spelt that way)
          LET variants == SelectSeq(<<"ID", "Id", "iD", "NAME", "Name", "TYPE", "Type", "NOTE", "PK", "Pk", "REF">>,
                                    LAMBDA v : ColIdx(t, v) = 0 /\ \E c \in DOMAIN t.cols : Fold(t.cols[c].name) = Fold(v))
-             missing == IF variants # <<>> /\ Coin(sd, 935, 60) THEN PickPos(sd, 936, variants) ELSE "zz_nocol" IN
-         [base EXCEPT ![tpos].idxs = Append(@, [subj |-> IF Coin(sd, 923, 50) THEN <<[k |-> "col", v |-> missing]>>
-                                                         ELSE <<[k |-> "col", v |-> t.cols[1].name], [k |-> "col", v |-> missing]>>,
-                                                name |-> "", unique |-> FALSE, pk |-> FALSE, type |-> "", note |-> "", comment |-> ""])]
+             missing == IF variants # <<>> /\ Coin(sd, 935, 60) THEN PickPos(sd, 936, variants) ELSE "zz_nocol"
+             bad == [subj |-> IF Coin(sd, 923, 50) THEN <<[k |-> "col", v |-> missing]>>
+                              ELSE <<[k |-> "col", v |-> t.cols[1].name], [k |-> "col", v |-> missing]>>,
+                     name |-> "", unique |-> FALSE, pk |-> FALSE, type |-> "", note |-> "", comment |-> ""]
+             good == [subj |-> <<[k |-> "col", v |-> t.cols[1].name]>>, name |-> "zz_ok", unique |-> TRUE, pk |-> FALSE, type |-> "",
+                      note |-> "", comment |-> ""] IN
+         \* the offending index is the last of its block or the FIRST one, with a faultless index after it
+         [base EXCEPT ![tpos].idxs = IF Coin(sd, 938, 50) THEN <<bad>> \o (IF @ = <<>> THEN <<good>> ELSE @) ELSE Append(@, bad)]
     [] k = "GroupNoTable" ->
          LET elsewhere == SelectSeq(tabs, LAMBDA x : Locate(tabs, "", x.name, FALSE) = 0) IN
          InsertSomewhere(sd, base, [d |-> "group", name |-> "zz_g",
